@@ -1091,6 +1091,50 @@ func minimiseAndWrite(prop string, r *RunReport, replays, scratch string) (strin
 			break
 		}
 	}
+	// structural deletion on the workload stream: drop a window of k consecutive draws and
+	// shift the later ones down (an operation that costs a fixed number of draws disappears,
+	// the rest of the plan keeps its meaning)
+	extra := 160
+	for _, k := range []int{12, 8, 6, 4, 3, 2, 1} {
+		for again := true; again && extra > 0; {
+			again = false
+			ps := best.W
+			if len(ps) == 0 {
+				break
+			}
+			maxI := ps[len(ps)-1].I
+			var cands []simrt.Tape
+			for start := 0; start <= maxI && len(cands) < 32; start += k {
+				var np []simrt.Pair
+				changed := false
+				for _, pr := range ps {
+					switch {
+					case pr.I < start:
+						np = append(np, pr)
+					case pr.I >= start+k:
+						np = append(np, simrt.Pair{I: pr.I - k, V: pr.V})
+						changed = true
+					default:
+						changed = true
+					}
+				}
+				if changed {
+					cands = append(cands, set(best, 2, np))
+				}
+			}
+			if len(cands) == 0 {
+				break
+			}
+			saved := budget
+			budget = extra
+			ok := try(cands)
+			extra = budget
+			budget = saved
+			if ok {
+				again = true
+			}
+		}
+	}
 	// final: write and verify
 	v := hasSig(bestRep, sig)
 	rf := &replayFile{Property: prop, Scenario: r.Scenario, Cell: r.Cell, Seed: r.Seed, Tape: best, Violation: v,
